@@ -3,6 +3,7 @@ module verifharness
 go 1.21
 
 require (
+	github.com/flynn/noise v1.0.0
 	go.brendoncarroll.net/p2p v0.0.0
 	go.uber.org/zap v1.24.0
 	golang.org/x/crypto v0.9.0
@@ -11,7 +12,6 @@ require (
 
 require (
 	github.com/davecgh/go-spew v1.1.1 // indirect
-	github.com/flynn/noise v1.0.0 // indirect
 	github.com/golang/protobuf v1.5.3 // indirect
 	github.com/pkg/errors v0.9.1 // indirect
 	github.com/pmezard/go-difflib v1.0.0 // indirect
